@@ -37,9 +37,10 @@ def verify(wt, name, prop, needs):
         cmd = f"go test -vet=off -count=1 -run 'TestSeededDemo$' {pkg}"
         rc1, o1 = sh(cmd, wt)
         ran.append(cmd + "   (with change) -> exit %d" % rc1)
-        sh("git stash push -- " + " ".join(changed), wt)
+        open("/tmp/seed/.verify.patch", "w").write(diff)
+        sh("git apply -R /tmp/seed/.verify.patch", wt)
         rc2, o2 = sh(cmd, wt)
-        sh("git stash pop", wt)
+        sh("git apply /tmp/seed/.verify.patch", wt)
         ran.append(cmd + "   (without change) -> exit %d" % rc2)
         results[d] = (rc1, rc2, o1[-1500:])
     # full suite with the change, demo moved aside
